@@ -150,6 +150,10 @@ func (s c06Spec) longText() string {
 
 // shapeCheck calls the three entry points on src and asserts the result shapes.
 func (c *Case) c06Check(src string, label string) {
+	c.Rep.Counters["c06_calls"]++
+	if c.Rep.Counters["c06_calls"]%500 == 1 && !c.Canary(1) {
+		return
+	}
 	viol := func(kind, what string) {
 		show := src
 		if len(show) > 200 {
